@@ -197,6 +197,19 @@ func vc09ParseTrace(tracePath, dataDir string) (*vc09Trace, error) {
 		}
 		if strings.HasSuffix(rest, "<unfinished ...>") {
 			pending[pid] = strings.TrimSuffix(rest, "<unfinished ...>")
+			if strings.HasPrefix(rest, "close(") {
+				// The kernel releases the descriptor before strace reports the
+				// return: another thread's open may already have returned the
+				// same number when the "resumed" line appears. Apply the close now.
+				a := strings.TrimSpace(strings.TrimSuffix(strings.TrimPrefix(rest, "close("), "<unfinished ...>"))
+				if fd, _, err := vc09ParseFD(a); err == nil {
+					if _, ok := fds[fd]; ok {
+						delete(fds, fd)
+						tr.Ops = append(tr.Ops, vc09Op{Kind: "unbind", FD: fd, Line: lineNo})
+					}
+				}
+				pending[pid] = "\x00closed"
+			}
 			continue
 		}
 		if strings.HasPrefix(rest, "<... ") {
@@ -209,6 +222,9 @@ func vc09ParseTrace(tracePath, dataDir string) (*vc09Trace, error) {
 				return nil, vc09Inconcl("trace line %d: resume without start: %.80q", lineNo, rest)
 			}
 			delete(pending, pid)
+			if p == "\x00closed" {
+				continue
+			}
 			rest = p + rest[i+len(" resumed>"):]
 		}
 		// NAME(ARGS) = RET ...
